@@ -90,10 +90,10 @@ Definition wf_num (k w : nat) (x : num) : Prop :=
 Lemma show_num_nsp_all x k w : wf_num k w x -> Forall nsp (show_num x).
 Proof.
   destruct x as [[neg ip] fr]. intros [_ [Hi [Hf _]]]. unfold show_num.
-  repeat apply Forall_app; repeat split.
+  apply Forall_app; split; [|apply Forall_app; split; [|apply Forall_app; split]].
   - destruct neg; repeat constructor.
   - clear - Hi. induction Hi; cbn; constructor; auto. apply char_not_space; auto.
-  - repeat constructor.
+  - constructor; [reflexivity|constructor].
   - clear - Hf. induction Hf; cbn; constructor; auto. apply char_not_space; auto.
 Qed.
 
